@@ -34,7 +34,9 @@ func VerifH_C16_Base() {
 	nc := verifChoice("ncauses", 2) + 1
 	causes := make([]int, nc)
 	for i := range causes {
-		causes[i] = verifChoice("cause", 4) // 0 peer close, 1 local Close, 2 malformed packet, 3 Disconnect
+		// 0 peer close, 1 local Close, 2 malformed packet, 3 Disconnect,
+		// 4 the write side breaks and an inbound packet needs an acknowledgement (PUBACK / PUBREC / PUBCOMP cannot be sent)
+		causes[i] = verifChoice("cause", 5)
 	}
 	disconnectCalled := false
 	disconnectReturned := false
@@ -53,6 +55,23 @@ func VerifH_C16_Base() {
 			case 2:
 				verifEvent("cause:malformed")
 				conn.inject([]byte{0xF0, 0})
+			case 4:
+				switch verifChoice("inbound", 3) {
+				case 0:
+					verifEvent("cause:ackfail(puback)")
+					conn.breakWrites()
+					conn.inject([]byte{0x32, 5, 0, 1, 't', 0, 1})
+				case 1:
+					verifEvent("cause:ackfail(pubrec)")
+					conn.breakWrites()
+					conn.inject([]byte{0x34, 5, 0, 1, 't', 0, 1})
+				case 2:
+					verifEvent("cause:ackfail(pubcomp)")
+					conn.inject([]byte{0x34, 5, 0, 1, 't', 0, 1})
+					verifPause()
+					conn.breakWrites()
+					conn.inject([]byte{0x62, 2, 0, 1})
+				}
 			case 3:
 				verifEvent("cause:disconnect")
 				verifLock()
@@ -130,6 +149,8 @@ func VerifH_C16_Base() {
 					verifAssert(cli.Err() == io.EOF, "C16.err_is_the_cause")
 				case 2:
 					verifAssert(errors.Is(cli.Err(), ErrInvalidPacket), "C16.err_is_the_cause")
+				case 4:
+					verifAssert(errors.Is(cli.Err(), errVconnWrite), "C16.err_is_the_cause")
 				}
 			}
 		}
